@@ -504,6 +504,21 @@ func orgRoundTrip(g *genetics.Genome, fit float64, gen int, hf float64, pcc bool
 	if spec != nil {
 		cmpTokens("organism", spec, string(data), tb, res)
 	}
+	// the binary form is a value: it must still restore this organism after another organism was marshalled
+	// (the parallel executor marshals many organisms before any of them is unmarshalled)
+	other, _ := genetics.NewOrganism(hf, g, gen+1)
+	other.VerifSetChampFields(fit, !pcc)
+	data2, err := other.MarshalBinary()
+	if err != nil {
+		res.fail("codec/organism/write", "Organism.MarshalBinary failed: %v", err)
+		return
+	}
+	back2 := &genetics.Organism{}
+	if err := back2.UnmarshalBinary(data2); err != nil || !sameBits(back2.Fitness, hf) || back2.Generation != gen+1 {
+		res.fail("codec/organism/roundtrip", "organism binary form does not restore a second organism (fitness %s, generation %d): got (%s, %d, %v)",
+			vhu.Fstr(hf), gen+1, vhu.Fstr(back2.Fitness), back2.Generation, err)
+		return
+	}
 	back := &genetics.Organism{}
 	if err := back.UnmarshalBinary(data); err != nil {
 		res.fail("codec/organism/read", "Organism.UnmarshalBinary rejects what MarshalBinary wrote: %v\n%s", err, data)
